@@ -89,6 +89,16 @@ def run(ctx):
                             kind_ = ("unbond", list(d0.nf.atoms)[0])
                     elif not sw and cl and all(x.name == "Claims::claim_tokens" for _, x in cl):
                         kind_ = ("claim", None)
+                    elif len(sw) == 1 and len(cl) == 1 and cl[0][1].name == "Claims::claim_tokens" and cl[0][0] < sw[0][0]:
+                        # matured claims moved back into the caller's own stake: what is released from CLAIMS is what is added to
+                        # STAKE, so the sum the contract must back is unchanged (and nothing is paid out)
+                        a_ = cl[0][1].args
+                        release_ = ("vfield", ("call", "Claims::claim_tokens", a_), "Ok", "0")
+                        d0 = cell_delta(sw[0][1], path=p)
+                        if d0.nf is not None and not d0.nf.inexact and not d0.nf.const and d0.nf.atoms == {release_: 1} \
+                                and sw[0][1].key == SENDER and a_[-3] == SENDER and a_[-2] == BLOCK \
+                                and all(h in ("submsgs", "submsg") and "prepare_hooks" in show(m) for h, m in (response_entries(p) or [])):
+                            kind_ = ("rebond", release_)
                     if kind_ is None:
                         ctx.ob("R10.6", key + "/no stake or claim change", not sw and not cl, sites=[e.site for _, e in sw + cl],
                                detail="%s changes STAKE/CLAIMS in a way that is neither an unbond of the caller's own stake nor a claim" % variant,
@@ -96,6 +106,9 @@ def run(ctx):
                         continue
                     if kind_[0] == "unbond":
                         check_unbond(ctx, p, key, sw, cl, cfg, amount=kind_[1])
+                    elif kind_[0] == "rebond":
+                        ctx.ob("R10.6", key + "/claims moved back to the caller's stake", True,
+                               sample={"stake_delta": "+" + show(kind_[1])[:100]})
                     else:
                         check_claim(ctx, p, key, sw, cl, cfg, CLAIMS)
                     variant_kind = kind_[0]
